@@ -1,4 +1,4 @@
 From Coq Require Extraction.
 From Coq Require Import ExtrOcamlBasic.
 From RM Require Import C20.Driver.
-Extraction "c20_model.ml" run_case argv_case argv_info sym_case dump_case o_exit o_stdout o_out o_cyborg o_log o_stderr_diag o_log_diag o_recover o_diag_kind.
+Extraction "c20_model.ml" run_case argv_case argv_info sym_case dump_case o_exit o_stdout o_out o_cyborg o_log o_stderr_diag o_log_diag o_recover o_diag_kind o_known_b o_known_d.
